@@ -21,7 +21,7 @@ BOUNDS = {'quick': {'step': 'OP_MERKLEVAL from a symbolic state: root 32 symboli
                             '0, 1, 32, 33 (symbolic), 0..2 items below, symbolic call budget', 'tree_shapes': 'every binary tree shape with 2..4 '
                     'leaves, every leaf; leaf scripts = 2 symbolic bytes each (pairwise different), plus one leaf of 255 / 256 / 257 bytes', 'builders': 'prioritized and balanced builders, '
                     '1..6 leaves, every leaf', 'pack': 'every shape with 2..4 leaves, leaf scripts `push x<symbolic byte>`', 'graft': 'a used 2-leaf tree grafted left / right / through make_script_tree_prioritized(leaves, tree), every leaf'},
-          'thorough': {'step': 'as quick, script 1..4 bytes, 0..3 items below', 'tree_shapes': 'every shape with 2..6 leaves', 'builders': '1..12 leaves',
+          'thorough': {'step': 'as quick, script 1..4 bytes, 0..3 items below', 'tree_shapes': 'every shape with 2..6 leaves', 'builders': '1..8 leaves (a 9-leaf job already takes more than ten minutes)',
                        'pack': 'every shape with 2..5 leaves'}}
 OUTSIDE = ['SHA-256 itself (uninterpreted; equal inputs give equal digests).  That a (script, sibling) pair which was not committed cannot be made to hash '
            'to the root is the xor-of-hashes preimage assumption of the construction, not a property of this code: the check shows that '
@@ -371,7 +371,7 @@ def _p_tree(tier):
 
 
 def _p_builder(tier):
-    top = 6 if tier == 'quick' else 12
+    top = 6 if tier == 'quick' else 8
     return [{'builder': b, 'n': n, 'leaf': l} for b in ('prioritized', 'balanced') for n in range(1, top + 1) for l in range(n)]
 
 
